@@ -29,7 +29,10 @@ structure PastOK (signed : List VoteSet.Vote) (e : Int × List RoundVotes) : Pro
     ∃ r'' bid'', (signed[i]'(by omega)).round < r'' ∧ r'' ≤ (signed[j]).round ∧
       maj23 (prevotesOf e.2 r'') = some bid'' ∧ bid''.hash ≠ (signed[i]'(by omega)).bid.hash
 
-def PastInv (n : Node) : Prop := ∀ e ∈ n.past, e.1 < n.height ∧ PastOK n.signed e
+structure PastInv (n : Node) : Prop where
+  ok : ∀ e ∈ n.past, e.1 < n.height ∧ PastOK n.signed e
+  /-- every vote of a finished height has its snapshot -/
+  cover : ∀ w ∈ n.signed, w.height < n.height → ∃ e ∈ n.past, e.1 = w.height
 
 def Fresh (V : List VoteSet.Validator) (h : Int) (rv : RoundVotes) : Prop :=
   ∃ r, rv = ⟨r, VoteSet.new h r 1 V, VoteSet.new h r 2 V⟩
@@ -39,18 +42,21 @@ def Fresh (V : List VoteSet.Validator) (h : Int) (rv : RoundVotes) : Prop :=
 structure Fr (n n' : Node) : Prop where
   h : n'.height = n.height
   past : n'.past = n.past
-  sg : ∃ extra, n'.signed = n.signed ++ extra ∧ ∀ m ∈ extra, m.height = n.height
+  sg : ∃ extra, n'.signed = n.signed ++ extra ∧
+        ∀ m ∈ extra, m.height = n.height ∧ ∃ i : Nat, n.me = some i ∧ m.idx = (i : Int)
+  me : n'.me = n.me
   qv : ∀ v ok, Msg.vote v ok ∈ n'.queue → Msg.vote v ok ∈ n.queue ∨ (v ∈ n'.signed ∧ ok = true)
   rd : ∀ rv ∈ n'.rounds, rv ∈ n.rounds ∨ Fresh (vsVals n.vals) n.height rv
   vv : vsVals n'.vals = vsVals n.vals
   v0 : n'.vals0 = n.vals0
 
 theorem Fr.rfl' (n : Node) : Fr n n :=
-  ⟨rfl, rfl, ⟨[], by simp, by simp⟩, fun _ _ h => Or.inl h, fun _ h => Or.inl h, rfl, rfl⟩
+  ⟨rfl, rfl, ⟨[], by simp, by simp⟩, rfl, fun _ _ h => Or.inl h, fun _ h => Or.inl h, rfl, rfl⟩
 
 theorem Fr.of_eq {n n' : Node} (h : n'.height = n.height) (p : n'.past = n.past) (s : n'.signed = n.signed)
-    (q : n'.queue = n.queue) (r : n'.rounds = n.rounds) (v : n'.vals = n.vals) (v0 : n'.vals0 = n.vals0) : Fr n n' :=
-  ⟨h, p, ⟨[], by simp [s], by simp⟩, fun _ _ hm => Or.inl (by rw [← q]; exact hm), fun _ hm => Or.inl (by rw [← r]; exact hm), by rw [v], v0⟩
+    (q : n'.queue = n.queue) (r : n'.rounds = n.rounds) (v : n'.vals = n.vals) (v0 : n'.vals0 = n.vals0)
+    (m : n'.me = n.me) : Fr n n' :=
+  ⟨h, p, ⟨[], by simp [s], by simp⟩, m, fun _ _ hm => Or.inl (by rw [← q]; exact hm), fun _ hm => Or.inl (by rw [← r]; exact hm), by rw [v], v0⟩
 
 theorem Fr.signed_sub {a b : Node} (x : Fr a b) : ∀ v ∈ a.signed, v ∈ b.signed := by
   obtain ⟨e, h, _⟩ := x.sg
@@ -59,12 +65,14 @@ theorem Fr.signed_sub {a b : Node} (x : Fr a b) : ∀ v ∈ a.signed, v ∈ b.si
 theorem Fr.trans {a b c : Node} (x : Fr a b) (y : Fr b c) : Fr a c := by
   obtain ⟨e1, h1, g1⟩ := x.sg
   obtain ⟨e2, h2, g2⟩ := y.sg
-  refine ⟨y.h.trans x.h, y.past.trans x.past, ⟨e1 ++ e2, by rw [h2, h1, List.append_assoc], ?_⟩, ?_, ?_,
+  refine ⟨y.h.trans x.h, y.past.trans x.past, ⟨e1 ++ e2, by rw [h2, h1, List.append_assoc], ?_⟩, y.me.trans x.me, ?_, ?_,
     y.vv.trans x.vv, y.v0.trans x.v0⟩
   · intro m hm
     rcases List.mem_append.mp hm with hm | hm
     · exact g1 m hm
-    · rw [g2 m hm, x.h]
+    · have := g2 m hm
+      rw [x.h, x.me] at this
+      exact this
   · intro v ok hm
     rcases y.qv v ok hm with hm | hm
     · rcases x.qv v ok hm with hm | hm
@@ -97,13 +105,21 @@ theorem PastOK.append {signed extra : List VoteSet.Vote} {e : Int × List RoundV
       exact hx _ hm h5
 
 theorem PastInv.fr {n n' : Node} (p : PastInv n) (f : Fr n n') : PastInv n' := by
-  intro e he
-  rw [f.past] at he
-  obtain ⟨hlt, ok⟩ := p e he
   obtain ⟨extra, hs, hx⟩ := f.sg
-  refine ⟨by rw [f.h]; exact hlt, ?_⟩
-  rw [hs]
-  exact ok.append (fun m hm => by rw [hx m hm]; omega)
+  refine ⟨?_, ?_⟩
+  · intro e he
+    rw [f.past] at he
+    obtain ⟨hlt, ok⟩ := p.ok e he
+    refine ⟨by rw [f.h]; exact hlt, ?_⟩
+    rw [hs]
+    exact ok.append (fun m hm => by rw [(hx m hm).1]; omega)
+  · intro w hw hlt
+    rw [f.past]
+    rw [f.h] at hlt
+    rw [hs] at hw
+    rcases List.mem_append.mp hw with hw | hw
+    · exact p.cover w hw hlt
+    · have := (hx w hw).1; omega
 
 /-! ### `vsVals` (addresses and powers) does not depend on the accums -/
 
@@ -151,13 +167,13 @@ theorem vsVals_incrementAccum (vs : ValSet.ValSet) (k : Nat) :
 
 /-! ### the frame lemmas, one per transition function that cannot end the height -/
 
-theorem fr_emit (n : Node) (e : Emit) : Fr n (emit n e) := Fr.of_eq rfl rfl rfl rfl rfl rfl rfl
+theorem fr_emit (n : Node) (e : Emit) : Fr n (emit n e) := Fr.of_eq rfl rfl rfl rfl rfl rfl rfl rfl
 
 theorem fr_setRound (n : Node) (r : Int) : Fr n (setRound n r) := by
   unfold setRound
   split
-  · exact Fr.of_eq rfl rfl rfl rfl rfl rfl rfl
-  · refine ⟨rfl, rfl, ⟨[], by simp, by simp⟩, fun _ _ h => Or.inl h, ?_, rfl, rfl⟩
+  · exact Fr.of_eq rfl rfl rfl rfl rfl rfl rfl rfl
+  · refine ⟨rfl, rfl, ⟨[], by simp, by simp⟩, rfl, fun _ _ h => Or.inl h, ?_, rfl, rfl⟩
     intro rv hm
     rcases List.mem_append.mp hm with hm | hm
     · exact Or.inl hm
@@ -169,7 +185,9 @@ theorem fr_signAddVote (n : Node) (t : Nat) (bid : VoteSet.BlockID) : Fr n (sign
   split
   · dsimp only
     split
-    · refine ⟨rfl, rfl, ⟨[_], rfl, by simp⟩, ?_, fun _ h => Or.inl h, rfl, rfl⟩
+    · rename_i i a hme _ _
+      refine ⟨rfl, rfl, ⟨[_], rfl, by intro m hm; simp only [List.mem_singleton] at hm; subst hm; exact ⟨rfl, i, hme, rfl⟩⟩, rfl, ?_,
+        fun _ h => Or.inl h, rfl, rfl⟩
       intro v ok hm
       rcases List.mem_append.mp hm with hm | hm
       · exact Or.inl hm
@@ -177,7 +195,7 @@ theorem fr_signAddVote (n : Node) (t : Nat) (bid : VoteSet.BlockID) : Fr n (sign
         obtain ⟨hv, hok⟩ := hm
         subst hv
         exact Or.inr ⟨by simp, hok⟩
-    · exact Fr.of_eq rfl rfl rfl rfl rfl rfl rfl
+    · exact Fr.of_eq rfl rfl rfl rfl rfl rfl rfl rfl
   · exact Fr.rfl' n
 
 theorem fr_doPrevote (n : Node) : Fr n (doPrevote n) := by
@@ -192,7 +210,7 @@ theorem fr_enterPrevote (n : Node) (h r : Int) : Fr n (enterPrevote n h r) := by
   unfold enterPrevote
   split
   · exact Fr.rfl' n
-  · exact (fr_doPrevote n).trans (Fr.of_eq rfl rfl rfl rfl rfl rfl rfl)
+  · exact (fr_doPrevote n).trans (Fr.of_eq rfl rfl rfl rfl rfl rfl rfl rfl)
 
 theorem fr_enterPrevoteWait (n : Node) (h r : Int) : Fr n (enterPrevoteWait n h r) := by
   unfold enterPrevoteWait
@@ -200,7 +218,7 @@ theorem fr_enterPrevoteWait (n : Node) (h r : Int) : Fr n (enterPrevoteWait n h 
   · exact Fr.rfl' n
   · split
     · exact fr_emit _ _
-    · exact Fr.of_eq rfl rfl rfl rfl rfl rfl rfl
+    · exact Fr.of_eq rfl rfl rfl rfl rfl rfl rfl rfl
 
 theorem fr_enterPrecommitWait (n : Node) (h r : Int) : Fr n (enterPrecommitWait n h r) := by
   unfold enterPrecommitWait
@@ -208,27 +226,27 @@ theorem fr_enterPrecommitWait (n : Node) (h r : Int) : Fr n (enterPrecommitWait 
   · exact Fr.rfl' n
   · split
     · exact fr_emit _ _
-    · exact Fr.of_eq rfl rfl rfl rfl rfl rfl rfl
+    · exact Fr.of_eq rfl rfl rfl rfl rfl rfl rfl rfl
 
 /-- queueing a proposal and its parts adds no vote to the queue -/
 theorem Fr.of_queue {n n' : Node} (h : n'.height = n.height) (p : n'.past = n.past) (s : n'.signed = n.signed)
     (q : ∀ v ok, Msg.vote v ok ∈ n'.queue → Msg.vote v ok ∈ n.queue) (r : n'.rounds = n.rounds)
-    (v : n'.vals = n.vals) (v0 : n'.vals0 = n.vals0) : Fr n n' :=
-  ⟨h, p, ⟨[], by simp [s], by simp⟩, fun a b hm => Or.inl (q a b hm), fun _ hm => Or.inl (by rw [← r]; exact hm), by rw [v], v0⟩
+    (v : n'.vals = n.vals) (v0 : n'.vals0 = n.vals0) (m : n'.me = n.me) : Fr n n' :=
+  ⟨h, p, ⟨[], by simp [s], by simp⟩, m, fun a b hm => Or.inl (q a b hm), fun _ hm => Or.inl (by rw [← r]; exact hm), by rw [v], v0⟩
 
 theorem fr_decideProposal (n : Node) (h r : Int) : Fr n (decideProposal n h r) := by
   unfold decideProposal
   extract_lets own block pol p res m
-  have hm : Fr n m := by unfold m; split <;> exact Fr.of_eq rfl rfl rfl rfl rfl rfl rfl
+  have hm : Fr n m := by unfold m; split <;> exact Fr.of_eq rfl rfl rfl rfl rfl rfl rfl rfl
   split
   · split
-    · refine hm.trans (Fr.of_queue rfl rfl rfl ?_ rfl rfl rfl)
+    · refine hm.trans (Fr.of_queue rfl rfl rfl ?_ rfl rfl rfl rfl)
       intro v ok hq
       rcases List.mem_append.mp hq with hq | hq
       · exact hq
       · simp at hq
-    · exact Fr.of_eq rfl rfl rfl rfl rfl rfl rfl
-  · exact Fr.of_eq rfl rfl rfl rfl rfl rfl rfl
+    · exact Fr.of_eq rfl rfl rfl rfl rfl rfl rfl rfl
+  · exact Fr.of_eq rfl rfl rfl rfl rfl rfl rfl rfl
 
 theorem fr_enterPropose (n : Node) (h r : Int) : Fr n (enterPropose n h r) := by
   unfold enterPropose
@@ -243,7 +261,7 @@ theorem fr_enterPropose (n : Node) (h r : Int) : Fr n (enterPropose n h r) := by
         · exact fr_decideProposal _ _ _
         · exact Fr.rfl' _
       · exact Fr.rfl' _
-    have f3 : Fr n2 n3 := Fr.of_eq rfl rfl rfl rfl rfl rfl rfl
+    have f3 : Fr n2 n3 := Fr.of_eq rfl rfl rfl rfl rfl rfl rfl rfl
     split
     · exact ((f1.trans f2).trans f3).trans (fr_enterPrevote _ _ _)
     · exact (f1.trans f2).trans f3
@@ -254,24 +272,24 @@ theorem fr_enterNewRound (n : Node) (h r : Int) : Fr n (enterNewRound n h r) := 
   · exact Fr.rfl' n
   · extract_lets vals n1 n2 n3
     have f1 : Fr n n1 := by
-      refine ⟨rfl, rfl, ⟨[], by simp [n1], by simp⟩, fun _ _ hm => Or.inl hm, fun _ hm => Or.inl hm, ?_, rfl⟩
+      refine ⟨rfl, rfl, ⟨[], by simp [n1], by simp⟩, rfl, fun _ _ hm => Or.inl hm, fun _ hm => Or.inl hm, ?_, rfl⟩
       show vsVals vals = vsVals n.vals
       unfold vals
       split
       · exact vsVals_incrementAccum _ _
       · rfl
-    have f2 : Fr n1 n2 := by unfold n2; split <;> exact Fr.of_eq rfl rfl rfl rfl rfl rfl rfl
+    have f2 : Fr n1 n2 := by unfold n2; split <;> exact Fr.of_eq rfl rfl rfl rfl rfl rfl rfl rfl
     have f3 : Fr n2 n3 := fr_setRound _ _
     exact ((f1.trans f2).trans f3).trans (fr_enterPropose _ _ _)
 
-theorem fr_unlock (n : Node) : Fr n (unlock n) := Fr.of_eq rfl rfl rfl rfl rfl rfl rfl
+theorem fr_unlock (n : Node) : Fr n (unlock n) := Fr.of_eq rfl rfl rfl rfl rfl rfl rfl rfl
 
 theorem fr_enterPrecommit (n : Node) (h r : Int) : Fr n (enterPrecommit n h r) := by
   unfold enterPrecommit
   split
   · exact Fr.rfl' n
   · extract_lets fin
-    have key : ∀ a b : Node, Fr a b → Fr a (fin b) := fun a b f => f.trans (Fr.of_eq rfl rfl rfl rfl rfl rfl rfl)
+    have key : ∀ a b : Node, Fr a b → Fr a (fin b) := fun a b f => f.trans (Fr.of_eq rfl rfl rfl rfl rfl rfl rfl rfl)
     split
     · exact key _ _ (fr_signAddVote _ _ _)
     · split
@@ -282,36 +300,37 @@ theorem fr_enterPrecommit (n : Node) (h r : Int) : Fr n (enterPrecommit n h r) :
           · exact fr_unlock _
           · exact Fr.rfl' _
         · split
-          · exact key _ _ ((Fr.of_eq rfl rfl rfl rfl rfl rfl rfl : Fr n { n with lockedRound := r }).trans (fr_signAddVote _ _ _))
+          · exact key _ _ ((Fr.of_eq rfl rfl rfl rfl rfl rfl rfl rfl : Fr n { n with lockedRound := r }).trans (fr_signAddVote _ _ _))
           · split
             · split
               · exact key _ _ (fr_emit _ _)
-              · exact key _ _ ((Fr.of_eq rfl rfl rfl rfl rfl rfl rfl : Fr n { n with lockedRound := r, lockedBlock := n.proposalBlock }).trans
+              · exact key _ _ ((Fr.of_eq rfl rfl rfl rfl rfl rfl rfl rfl : Fr n { n with lockedRound := r, lockedBlock := n.proposalBlock }).trans
                   (fr_signAddVote _ _ _))
             · extract_lets m1
-              have g2 : Fr n m1 := by unfold m1; split <;> exact Fr.of_eq rfl rfl rfl rfl rfl rfl rfl
+              have g2 : Fr n m1 := by unfold m1; split <;> exact Fr.of_eq rfl rfl rfl rfl rfl rfl rfl rfl
               exact key _ _ (g2.trans (fr_signAddVote _ _ _))
 
 theorem fr_setProposal (n : Node) (p : Proposal) (signer : Nat) (bad : Bool) : Fr n (setProposal n p signer bad) := by
   unfold setProposal
   repeat' split
-  all_goals first | exact Fr.rfl' n | exact Fr.of_eq rfl rfl rfl rfl rfl rfl rfl
+  all_goals first | exact Fr.rfl' n | exact Fr.of_eq rfl rfl rfl rfl rfl rfl rfl rfl
 
 theorem past_hvsAddVote (n : Node) (v : VoteSet.Vote) (sigok : Bool) (peer : String) :
     (hvsAddVote n v sigok peer).1.past = n.past ∧ (hvsAddVote n v sigok peer).1.queue = n.queue ∧
-    (hvsAddVote n v sigok peer).1.vals = n.vals ∧ (hvsAddVote n v sigok peer).1.vals0 = n.vals0 := by
+    (hvsAddVote n v sigok peer).1.vals = n.vals ∧ (hvsAddVote n v sigok peer).1.vals0 = n.vals0 ∧
+    (hvsAddVote n v sigok peer).1.me = n.me := by
   unfold hvsAddVote
   split
-  · exact ⟨rfl, rfl, rfl, rfl⟩
+  · exact ⟨rfl, rfl, rfl, rfl, rfl⟩
   · split
     rename_i n' known heq
-    have s : n'.past = n.past ∧ n'.queue = n.queue ∧ n'.vals = n.vals ∧ n'.vals0 = n.vals0 := by
+    have s : n'.past = n.past ∧ n'.queue = n.queue ∧ n'.vals = n.vals ∧ n'.vals0 = n.vals0 ∧ n'.me = n.me := by
       split at heq
-      · cases heq; exact ⟨rfl, rfl, rfl, rfl⟩
+      · cases heq; exact ⟨rfl, rfl, rfl, rfl, rfl⟩
       · dsimp only at heq
         split at heq
-        · cases heq; exact ⟨rfl, rfl, rfl, rfl⟩
-        · cases heq; exact ⟨rfl, rfl, rfl, rfl⟩
+        · cases heq; exact ⟨rfl, rfl, rfl, rfl, rfl⟩
+        · cases heq; exact ⟨rfl, rfl, rfl, rfl, rfl⟩
     split
     · exact s
     · split
@@ -320,13 +339,14 @@ theorem past_hvsAddVote (n : Node) (v : VoteSet.Vote) (sigok : Bool) (peer : Str
 
 theorem past_setPeerMaj23 (n : Node) (height round : Int) (type : Nat) (peer : String) (bid : VoteSet.BlockID) :
     (setPeerMaj23 n height round type peer bid).past = n.past ∧ (setPeerMaj23 n height round type peer bid).queue = n.queue ∧
-    (setPeerMaj23 n height round type peer bid).vals = n.vals ∧ (setPeerMaj23 n height round type peer bid).vals0 = n.vals0 := by
+    (setPeerMaj23 n height round type peer bid).vals = n.vals ∧ (setPeerMaj23 n height round type peer bid).vals0 = n.vals0 ∧
+    (setPeerMaj23 n height round type peer bid).me = n.me := by
   unfold setPeerMaj23
   split
-  · exact ⟨rfl, rfl, rfl, rfl⟩
+  · exact ⟨rfl, rfl, rfl, rfl, rfl⟩
   · split
-    · exact ⟨rfl, rfl, rfl, rfl⟩
-    · split <;> exact ⟨rfl, rfl, rfl, rfl⟩
+    · exact ⟨rfl, rfl, rfl, rfl, rfl⟩
+    · split <;> exact ⟨rfl, rfl, rfl, rfl, rfl⟩
 
 /-! ### what the vote sets hold: every stored vote was offered to this node with a verifying signature -/
 
@@ -461,57 +481,67 @@ theorem vsi_setPeerMaj23 {V : List VoteSet.Validator} {hist : VoteSet.Hist} (n :
 /-- every vote in the node's own queue is one it has signed -/
 def QS (n : Node) : Prop := ∀ v ok, Msg.vote v ok ∈ n.queue → v ∈ n.signed ∧ ok = true
 
-structure Full (V : List VoteSet.Validator) (n : Node) (hist : VoteSet.Hist) : Prop where
+structure Full (V : List VoteSet.Validator) (me0 : Option Nat) (n : Node) (hist : VoteSet.Hist) : Prop where
   qj : QJ n
   a3 : A3Inv n
   past : PastInv n
   vsi : VSI V n hist
   qs : QS n
+  /-- signed votes carry the node's own validator index -/
+  sm : ∀ w ∈ n.signed, ∃ i : Nat, n.me = some i ∧ w.idx = (i : Int)
+  hme : n.me = me0
 
-variable {V : List VoteSet.Validator} {hist : VoteSet.Hist}
+variable {V : List VoteSet.Validator} {hist : VoteSet.Hist} {me0 : Option Nat}
 
-theorem Full.mono {n : Node} (x : VoteSet.Hist) (f : Full V n hist) : Full V n (hist ++ x) :=
-  ⟨f.qj, f.a3, f.past, f.vsi.mono x, f.qs⟩
+theorem Full.mono {n : Node} (x : VoteSet.Hist) (f : Full V me0 n hist) : Full V me0 n (hist ++ x) :=
+  ⟨f.qj, f.a3, f.past, f.vsi.mono x, f.qs, f.sm, f.hme⟩
 
-theorem Full.fr {n n' : Node} (f : Full V n hist) (r : Fr n n') (e : Ext n n') (a : A3Inv n') : Full V n' hist := by
-  refine ⟨f.qj.ext e, a, f.past.fr r, f.vsi.fr r, ?_⟩
-  intro v ok hm
-  rcases r.qv v ok hm with hm | hm
-  · exact ⟨r.signed_sub _ (f.qs v ok hm).1, (f.qs v ok hm).2⟩
-  · exact hm
+theorem Full.fr {n n' : Node} (f : Full V me0 n hist) (r : Fr n n') (e : Ext n n') (a : A3Inv n') : Full V me0 n' hist := by
+  refine ⟨f.qj.ext e, a, f.past.fr r, f.vsi.fr r, ?_, ?_, r.me.trans f.hme⟩
+  · intro v ok hm
+    rcases r.qv v ok hm with hm | hm
+    · exact ⟨r.signed_sub _ (f.qs v ok hm).1, (f.qs v ok hm).2⟩
+    · exact hm
+  · intro w hw
+    obtain ⟨extra, hs, hx⟩ := r.sg
+    rw [hs] at hw
+    rw [r.me]
+    rcases List.mem_append.mp hw with hw | hw
+    · exact f.sm w hw
+    · exact (hx w hw).2
 
-theorem Full.same {n n' : Node} (f : Full V n hist) (hh : n'.height = n.height) (hr : n'.rounds = n.rounds)
+theorem Full.same {n n' : Node} (f : Full V me0 n hist) (hh : n'.height = n.height) (hr : n'.rounds = n.rounds)
     (hs : n'.signed = n.signed) (hp : n'.past = n.past)
     (hq : ∀ v ok, Msg.vote v ok ∈ n'.queue → Msg.vote v ok ∈ n.queue) (hv : n'.vals = n.vals) (hv0 : n'.vals0 = n.vals0)
-    (k : Kept n n') (l : Le n n') : Full V n' hist :=
-  f.fr (Fr.of_queue hh hp hs hq hr hv hv0) (Ext.frame hh hr hs) (f.a3.keep (Ext.frame hh hr hs) k l hs)
+    (hm : n'.me = n.me) (k : Kept n n') (l : Le n n') : Full V me0 n' hist :=
+  f.fr (Fr.of_queue hh hp hs hq hr hv hv0 hm) (Ext.frame hh hr hs) (f.a3.keep (Ext.frame hh hr hs) k l hs)
 
-theorem full_emit (n : Node) (e : Emit) (f : Full V n hist) : Full V (emit n e) hist :=
+theorem full_emit (n : Node) (e : Emit) (f : Full V me0 n hist) : Full V me0 (emit n e) hist :=
   f.fr (fr_emit _ _) (ext_emit _ _) (a3_emit _ _ f.a3)
 
-theorem full_enterNewRound (n : Node) (h r : Int) (f : Full V n hist) : Full V (enterNewRound n h r) hist :=
+theorem full_enterNewRound (n : Node) (h r : Int) (f : Full V me0 n hist) : Full V me0 (enterNewRound n h r) hist :=
   f.fr (fr_enterNewRound _ _ _) (ext_enterNewRound _ _ _) (a3_enterNewRound _ _ _ f.a3)
 
-theorem full_enterPrevote (n : Node) (h r : Int) (hw : n.height = h → r ≤ n.round) (f : Full V n hist) :
-    Full V (enterPrevote n h r) hist :=
+theorem full_enterPrevote (n : Node) (h r : Int) (hw : n.height = h → r ≤ n.round) (f : Full V me0 n hist) :
+    Full V me0 (enterPrevote n h r) hist :=
   f.fr (fr_enterPrevote _ _ _) (ext_enterPrevote _ _ _) (a3_enterPrevote _ _ _ hw f.a3)
 
-theorem full_enterPrevoteWait (n : Node) (h r : Int) (f : Full V n hist) : Full V (enterPrevoteWait n h r) hist :=
+theorem full_enterPrevoteWait (n : Node) (h r : Int) (f : Full V me0 n hist) : Full V me0 (enterPrevoteWait n h r) hist :=
   f.fr (fr_enterPrevoteWait _ _ _) (ext_enterPrevoteWait _ _ _) (a3_enterPrevoteWait _ _ _ f.a3)
 
-theorem full_enterPrecommit (n : Node) (h r : Int) (hw : n.height = h → r ≤ n.round) (f : Full V n hist) :
-    Full V (enterPrecommit n h r) hist :=
+theorem full_enterPrecommit (n : Node) (h r : Int) (hw : n.height = h → r ≤ n.round) (f : Full V me0 n hist) :
+    Full V me0 (enterPrecommit n h r) hist :=
   f.fr (fr_enterPrecommit _ _ _) (ext_enterPrecommit _ _ _ hw) (a3_enterPrecommit _ _ _ hw f.a3)
 
-theorem full_enterPrecommitWait (n : Node) (h r : Int) (f : Full V n hist) : Full V (enterPrecommitWait n h r) hist :=
+theorem full_enterPrecommitWait (n : Node) (h r : Int) (f : Full V me0 n hist) : Full V me0 (enterPrecommitWait n h r) hist :=
   f.fr (fr_enterPrecommitWait _ _ _) (ext_enterPrecommitWait _ _ _) (a3_enterPrecommitWait _ _ _ f.a3)
 
-theorem full_setProposal (n : Node) (p : Proposal) (signer : Nat) (bad : Bool) (f : Full V n hist) :
-    Full V (setProposal n p signer bad) hist :=
+theorem full_setProposal (n : Node) (p : Proposal) (signer : Nat) (bad : Bool) (f : Full V me0 n hist) :
+    Full V me0 (setProposal n p signer bad) hist :=
   f.fr (fr_setProposal _ _ _ _) (ext_setProposal _ _ _ _) (a3_setProposal _ _ _ _ f.a3)
 
 /-- what QJ and A3Inv say about the votes of the height the node is in, frozen -/
-theorem Full.freeze {n : Node} (f : Full V n hist) : PastOK n.signed (n.height, n.rounds) := by
+theorem Full.freeze {n : Node} (f : Full V me0 n hist) : PastOK n.signed (n.height, n.rounds) := by
   refine ⟨?_, ?_⟩
   · intro v hv hh ht hn
     exact (f.qj v hv).2 ht hh hn
@@ -519,19 +549,29 @@ theorem Full.freeze {n : Node} (f : Full V n hist) : PastOK n.signed (n.height, 
     exact f.a3.g3 i j hij hj ⟨h1, h2, h3⟩ h4 h5 h6 h7
 
 /-- the moment the height ends -/
-theorem PastInv.commit {n n' : Node} (f : Full V n hist) (hh : n'.height = n.height + 1)
+theorem PastInv.commit {n n' : Node} (f : Full V me0 n hist) (hh : n'.height = n.height + 1)
     (hp : n'.past = n.past ++ [(n.height, n.rounds)]) (hs : n'.signed = n.signed) : PastInv n' := by
-  intro e he
-  rw [hp] at he
-  rw [hs, hh]
-  rcases List.mem_append.mp he with he | he
-  · obtain ⟨a, b⟩ := f.past e he
-    exact ⟨by omega, b⟩
-  · simp only [List.mem_singleton] at he
-    subst he
-    exact ⟨by show n.height < n.height + 1; omega, f.freeze⟩
+  refine ⟨?_, ?_⟩
+  · intro e he
+    rw [hp] at he
+    rw [hs, hh]
+    rcases List.mem_append.mp he with he | he
+    · obtain ⟨a, b⟩ := f.past.ok e he
+      exact ⟨by omega, b⟩
+    · simp only [List.mem_singleton] at he
+      subst he
+      exact ⟨by show n.height < n.height + 1; omega, f.freeze⟩
+  · intro w hw hlt
+    rw [hs] at hw
+    rw [hh] at hlt
+    rw [hp]
+    by_cases hc : w.height < n.height
+    · obtain ⟨e, he, h1⟩ := f.past.cover w hw hc
+      exact ⟨e, List.mem_append_left _ he, h1⟩
+    · have := (f.a3.hr w hw).1
+      exact ⟨(n.height, n.rounds), List.mem_append_right _ (by simp), by show n.height = w.height; omega⟩
 
-theorem full_finalizeCommit (n : Node) (h : Int) (f : Full V n hist) : Full V (finalizeCommit n h) hist := by
+theorem full_finalizeCommit (n : Node) (h : Int) (f : Full V me0 n hist) : Full V me0 (finalizeCommit n h) hist := by
   have hq := f.qj.ext (ext_finalizeCommit n h)
   have ha := a3_finalizeCommit n h f.a3
   revert hq ha
@@ -552,7 +592,7 @@ theorem full_finalizeCommit (n : Node) (h : Int) (f : Full V n hist) : Full V (f
               have hh : n.height = h := Classical.not_not.mp (fun x => hg (Or.inl x))
               subst hh
               have f1 := full_emit n (.commit n.height (match n.proposalBlock with | some b => b | none => [])) f
-              refine ⟨hq, ha, PastInv.commit (full_emit n _ f) rfl rfl rfl, ?_, ?_⟩
+              refine ⟨hq, ha, PastInv.commit (full_emit n _ f) rfl rfl rfl, ?_, ?_, ?_, ?_⟩
               · refine ⟨f.vsi.pos, ?_, ?_, ?_, ?_⟩
                 · show vsVals (ValSet.incrementAccum ValSet.repaired n.vals0 1) = V
                   rw [vsVals_incrementAccum]; exact f.vsi.vals0
@@ -573,9 +613,11 @@ theorem full_finalizeCommit (n : Node) (h : Int) (f : Full V n hist) : Full V (f
                     exact f.vsi.cur
               · intro v ok hm
                 exact f.qs v ok hm
+              · exact f.sm
+              · exact f.hme
     · intro _ _; exact full_emit _ _ f
 
-theorem full_tryFinalizeCommit (n : Node) (h : Int) (f : Full V n hist) : Full V (tryFinalizeCommit n h) hist := by
+theorem full_tryFinalizeCommit (n : Node) (h : Int) (f : Full V me0 n hist) : Full V me0 (tryFinalizeCommit n h) hist := by
   unfold tryFinalizeCommit
   split
   · exact full_emit _ _ f
@@ -587,7 +629,7 @@ theorem full_tryFinalizeCommit (n : Node) (h : Int) (f : Full V n hist) : Full V
         · exact f
         · exact full_finalizeCommit _ _ f
 
-theorem full_enterCommit (n : Node) (h cr : Int) (f : Full V n hist) : Full V (enterCommit n h cr) hist := by
+theorem full_enterCommit (n : Node) (h cr : Int) (f : Full V me0 n hist) : Full V me0 (enterCommit n h cr) hist := by
   unfold enterCommit
   split
   · exact f
@@ -595,24 +637,24 @@ theorem full_enterCommit (n : Node) (h cr : Int) (f : Full V n hist) : Full V (e
     split
     · exact full_emit _ _ f
     · extract_lets n1 n2 n3
-      have i1 : Full V n1 hist := by
+      have i1 : Full V me0 n1 hist := by
         unfold n1
         split
-        · exact f.same rfl rfl rfl rfl (fun _ _ h => h) rfl rfl ⟨rfl, rfl, rfl⟩ (Le.of_same ⟨rfl, rfl, rfl⟩)
+        · exact f.same rfl rfl rfl rfl (fun _ _ h => h) rfl rfl rfl ⟨rfl, rfl, rfl⟩ (Le.of_same ⟨rfl, rfl, rfl⟩)
         · exact f
       have s1 : SameHRS n n1 := by
         unfold n1
         split <;> exact ⟨rfl, rfl, rfl⟩
-      have i2 : Full V n2 hist := by
+      have i2 : Full V me0 n2 hist := by
         unfold n2
         split
-        · exact i1.same rfl rfl rfl rfl (fun _ _ h => h) rfl rfl ⟨rfl, rfl, rfl⟩ (Le.of_same ⟨rfl, rfl, rfl⟩)
+        · exact i1.same rfl rfl rfl rfl (fun _ _ h => h) rfl rfl rfl ⟨rfl, rfl, rfl⟩ (Le.of_same ⟨rfl, rfl, rfl⟩)
         · exact i1
       have s2 : SameHRS n1 n2 := by
         unfold n2
         split <;> exact ⟨rfl, rfl, rfl⟩
-      have i3 : Full V n3 hist := by
-        refine i2.same rfl rfl rfl rfl (fun _ _ h => h) rfl rfl ⟨rfl, rfl, rfl⟩ ?_
+      have i3 : Full V me0 n3 hist := by
+        refine i2.same rfl rfl rfl rfl (fun _ _ h => h) rfl rfl rfl ⟨rfl, rfl, rfl⟩ ?_
         apply Le.enter
         · rfl
         · exact Int.le_refl _
@@ -623,8 +665,8 @@ theorem full_enterCommit (n : Node) (h cr : Int) (f : Full V n hist) : Full V (e
           exact Nat.le_of_lt (step_lt_of_not_le this)
       exact full_tryFinalizeCommit _ _ i3
 
-theorem full_addParts (n : Node) (height : Int) (block : Name) (own : Bool) (f : Full V n hist) :
-    Full V (addParts n height block own) hist := by
+theorem full_addParts (n : Node) (height : Int) (block : Name) (own : Bool) (f : Full V me0 n hist) :
+    Full V me0 (addParts n height block own) hist := by
   unfold addParts
   split
   · exact f
@@ -635,33 +677,41 @@ theorem full_addParts (n : Node) (height : Int) (block : Name) (own : Bool) (f :
       · split
         · exact f
         · extract_lets m
-          have im : Full V m hist :=
-            f.same rfl rfl rfl rfl (fun _ _ h => h) rfl rfl ⟨rfl, rfl, rfl⟩ (Le.of_same ⟨rfl, rfl, rfl⟩)
+          have im : Full V me0 m hist :=
+            f.same rfl rfl rfl rfl (fun _ _ h => h) rfl rfl rfl ⟨rfl, rfl, rfl⟩ (Le.of_same ⟨rfl, rfl, rfl⟩)
           split
           · exact full_enterPrevote m height m.round (fun _ => Int.le_refl _) im
           · split
             · exact full_tryFinalizeCommit _ _ im
             · exact im
 
-theorem full_hvsAddVote (n : Node) (v : VoteSet.Vote) (sigok : Bool) (peer : String) (f : Full V n hist) :
-    Full V (hvsAddVote n v sigok peer).1 (hist ++ [(v, sigok)]) := by
+theorem full_hvsAddVote (n : Node) (v : VoteSet.Vote) (sigok : Bool) (peer : String) (f : Full V me0 n hist) :
+    Full V me0 (hvsAddVote n v sigok peer).1 (hist ++ [(v, sigok)]) := by
   have hp := past_hvsAddVote n v sigok peer
   have hs := signed_hvsAddVote n v sigok peer
   have hh := (hrs_hvsAddVote n v sigok peer).h
   refine ⟨f.qj.ext (ext_hvsAddVote _ _ _ _),
     f.a3.keep (ext_hvsAddVote _ _ _ _) (kept_hvsAddVote _ _ _ _) (Le.of_same (hrs_hvsAddVote _ _ _ _)) hs,
-    ?_, vsi_hvsAddVote n v sigok peer f.vsi, ?_⟩
-  · intro e he
-    rw [hp.1] at he
-    rw [hs, hh]
-    exact f.past e he
+    ?_, vsi_hvsAddVote n v sigok peer f.vsi, ?_, ?_, ?_⟩
+  · refine ⟨?_, ?_⟩
+    · intro e he
+      rw [hp.1] at he
+      rw [hs, hh]
+      exact f.past.ok e he
+    · intro w hw hlt
+      rw [hs] at hw; rw [hh] at hlt; rw [hp.1]
+      exact f.past.cover w hw hlt
   · intro w ok hm
     rw [hp.2.1] at hm
     rw [hs]
     exact f.qs w ok hm
+  · intro w hw
+    rw [hs] at hw; rw [hp.2.2.2.2]
+    exact f.sm w hw
+  · rw [hp.2.2.2.2]; exact f.hme
 
-theorem full_addVote (n : Node) (v : VoteSet.Vote) (sigok : Bool) (peer : String) (f : Full V n hist) :
-    Full V (addVote n v sigok peer) (hist ++ [(v, sigok)]) := by
+theorem full_addVote (n : Node) (v : VoteSet.Vote) (sigok : Bool) (peer : String) (f : Full V me0 n hist) :
+    Full V me0 (addVote n v sigok peer) (hist ++ [(v, sigok)]) := by
   unfold addVote
   split
   · split
@@ -674,8 +724,8 @@ theorem full_addVote (n : Node) (v : VoteSet.Vote) (sigok : Bool) (peer : String
         dsimp only
         split
         · apply full_enterNewRound
-          exact (f.mono _).same rfl rfl rfl rfl (fun _ _ h => h) rfl rfl ⟨rfl, rfl, rfl⟩ (Le.of_same ⟨rfl, rfl, rfl⟩)
-        · exact (f.mono _).same rfl rfl rfl rfl (fun _ _ h => h) rfl rfl ⟨rfl, rfl, rfl⟩ (Le.of_same ⟨rfl, rfl, rfl⟩)
+          exact (f.mono _).same rfl rfl rfl rfl (fun _ _ h => h) rfl rfl rfl ⟨rfl, rfl, rfl⟩ (Le.of_same ⟨rfl, rfl, rfl⟩)
+        · exact (f.mono _).same rfl rfl rfl rfl (fun _ _ h => h) rfl rfl rfl ⟨rfl, rfl, rfl⟩ (Le.of_same ⟨rfl, rfl, rfl⟩)
   · split
     · have i0 := full_hvsAddVote n v sigok peer f
       generalize hvsAddVote n v sigok peer = res at i0 ⊢
@@ -684,7 +734,7 @@ theorem full_addVote (n : Node) (v : VoteSet.Vote) (sigok : Bool) (peer : String
       split
       · exact i0
       · split
-        · have i1 : Full V (if m.lockedBlock.isSome = true ∧ m.lockedRound < v.round ∧ v.round ≤ m.round then
+        · have i1 : Full V me0 (if m.lockedBlock.isSome = true ∧ m.lockedRound < v.round ∧ v.round ≤ m.round then
               match maj23 (prevotes m v.round) with
               | some b => if (!hashesTo m.lockedBlock b.hash) = true then unlock m else m
               | none => m
@@ -729,8 +779,8 @@ theorem full_addVote (n : Node) (v : VoteSet.Vote) (sigok : Bool) (peer : String
             · exact i0
     · exact f.mono _
 
-theorem full_handleTimeout (n : Node) (h r : Int) (s : Step) (hw : h = n.height → r ≤ n.round) (f : Full V n hist) :
-    Full V (handleTimeout n h r s) hist := by
+theorem full_handleTimeout (n : Node) (h r : Int) (s : Step) (hw : h = n.height → r ≤ n.round) (f : Full V me0 n hist) :
+    Full V me0 (handleTimeout n h r s) hist := by
   unfold handleTimeout
   split
   · exact f
@@ -753,26 +803,26 @@ def offered (n : Node) : In → VoteSet.Hist
             | [] => []
   | _ => []
 
-theorem full_handleMsg (n : Node) (m : Msg) (peer : String) (f : Full V n hist) :
-    Full V (handleMsg n m peer) (hist ++ offeredMsg m) := by
+theorem full_handleMsg (n : Node) (m : Msg) (peer : String) (f : Full V me0 n hist) :
+    Full V me0 (handleMsg n m peer) (hist ++ offeredMsg m) := by
   unfold handleMsg
   split
   · exact (full_setProposal _ _ _ _ f).mono _
   · exact (full_addParts _ _ _ _ f).mono _
   · exact full_addVote _ _ _ _ f
 
-theorem full_stepIn (n : Node) (inp : In) (f : Full V n hist) (hw : WellTimed n inp) :
-    Full V (stepIn n inp) (hist ++ offered n inp) := by
+theorem full_stepIn (n : Node) (inp : In) (f : Full V me0 n hist) (hw : WellTimed n inp) :
+    Full V me0 (stepIn n inp) (hist ++ offered n inp) := by
   cases inp with
   | msg m peer => exact full_handleMsg _ _ _ f
   | own =>
-    show Full V (match n.queue with | [] => n | m :: rest => handleMsg { n with queue := rest } m "")
+    show Full V me0 (match n.queue with | [] => n | m :: rest => handleMsg { n with queue := rest } m "")
       (hist ++ (match n.queue with | m :: _ => offeredMsg m | [] => []))
     cases hq : n.queue with
     | nil => exact f.mono _
     | cons m rest =>
-      have i' : Full V { n with queue := rest } hist :=
-        f.same rfl rfl rfl rfl (fun v ok h => by rw [hq]; exact List.mem_cons_of_mem _ h) rfl rfl ⟨rfl, rfl, rfl⟩
+      have i' : Full V me0 { n with queue := rest } hist :=
+        f.same rfl rfl rfl rfl (fun v ok h => by rw [hq]; exact List.mem_cons_of_mem _ h) rfl rfl rfl ⟨rfl, rfl, rfl⟩
           (Le.of_same ⟨rfl, rfl, rfl⟩)
       exact full_handleMsg _ _ _ i'
   | timeout h r s => exact (full_handleTimeout _ _ _ _ hw f).mono _
@@ -782,18 +832,32 @@ theorem full_stepIn (n : Node) (inp : In) (f : Full V n hist) (hw : WellTimed n 
     have hh := (hrs_setPeerMaj23 n h r t peer bid).h
     refine Full.mono _ ⟨f.qj.ext (ext_setPeerMaj23 _ _ _ _ _ _),
       f.a3.keep (ext_setPeerMaj23 _ _ _ _ _ _) (kept_setPeerMaj23 _ _ _ _ _ _)
-        (Le.of_same (hrs_setPeerMaj23 _ _ _ _ _ _)) hs, ?_, vsi_setPeerMaj23 n h r t peer bid f.vsi, ?_⟩
-    · intro e he
-      show e.1 < (setPeerMaj23 n h r t peer bid).height ∧ PastOK (setPeerMaj23 n h r t peer bid).signed e
-      have he' : e ∈ (setPeerMaj23 n h r t peer bid).past := he
-      rw [hp.1] at he'
-      rw [hs, hh]
-      exact f.past e he'
+        (Le.of_same (hrs_setPeerMaj23 _ _ _ _ _ _)) hs, ?_, vsi_setPeerMaj23 n h r t peer bid f.vsi, ?_, ?_, ?_⟩
+    · refine ⟨?_, ?_⟩
+      · intro e he
+        show e.1 < (setPeerMaj23 n h r t peer bid).height ∧ PastOK (setPeerMaj23 n h r t peer bid).signed e
+        have he' : e ∈ (setPeerMaj23 n h r t peer bid).past := he
+        rw [hp.1] at he'
+        rw [hs, hh]
+        exact f.past.ok e he'
+      · intro w hw hlt
+        have hw' : w ∈ (setPeerMaj23 n h r t peer bid).signed := hw
+        have hlt' : w.height < (setPeerMaj23 n h r t peer bid).height := hlt
+        show ∃ e ∈ (setPeerMaj23 n h r t peer bid).past, e.1 = w.height
+        rw [hs] at hw'; rw [hh] at hlt'; rw [hp.1]
+        exact f.past.cover w hw' hlt'
     · intro w ok hm
       have hm' : Msg.vote w ok ∈ (setPeerMaj23 n h r t peer bid).queue := hm
       rw [hp.2.1] at hm'
       show w ∈ (setPeerMaj23 n h r t peer bid).signed ∧ ok = true
       rw [hs]
       exact f.qs w ok hm'
+    · intro w hw
+      have hw' : w ∈ (setPeerMaj23 n h r t peer bid).signed := hw
+      show ∃ i : Nat, (setPeerMaj23 n h r t peer bid).me = some i ∧ w.idx = (i : Int)
+      rw [hs] at hw'; rw [hp.2.2.2.2]
+      exact f.sm w hw'
+    · show (setPeerMaj23 n h r t peer bid).me = me0
+      rw [hp.2.2.2.2]; exact f.hme
 
 end AnnVerif.Node
